@@ -61,6 +61,9 @@ static Outcome run_case(const EntryPoint& ep, const uint8_t* data, size_t n, boo
     int n_roundtrips = 0, n_skipped_env = 0, n_serialized = 0;
     uint64_t view_hash = 0;
     PDU* pdu = 0;
+    // C03: the two parses run over differently pre-filled heap blocks, so a member a parser leaves uninitialised shows up as a
+    // getter that differs between p and q (view(q) = view(p) must hold whatever the memory held before)
+    if (PROP == "C03") { g_new_fill_on = true; g_new_fill = 0xa5; }
     try { pdu = ep.fn(buf, (uint32_t)n); }
     catch (malformed_packet&) {}
     catch (exception_base& e) { sig = "exc:" + std::string(typeid(e).name()) + ":parse:" + ep.name; detail = e.what(); }
@@ -98,6 +101,7 @@ static Outcome run_case(const EntryPoint& ep, const uint8_t* data, size_t n, boo
                     Bytes y = pdu->serialize();
                     PDU* q = 0;
                     struct Del { PDU*& p; ~Del() { delete p; p = 0; } } del_q{q};
+                    g_new_fill = 0x3c;
                     try { q = reparse(ep, *pdu, y); }
                     catch (malformed_packet&) { sig = "roundtrip:reparse-rejected:" + deepest_class(*pdu); detail = "serialization of an accepted packet is rejected: " + hex(y).substr(0, 400); }
                     if (q) {
@@ -116,6 +120,7 @@ static Outcome run_case(const EntryPoint& ep, const uint8_t* data, size_t n, boo
         }
         delete pdu;
     }
+    g_new_fill_on = false;
     alarm(0);
     free(buf);
     if (Mon::errors && (sig.empty() || sig.compare(0, 4, "exc:") == 0)) { sig = Mon::first; detail = Mon::first_detail; }
